@@ -109,7 +109,9 @@ fn canon_in<'a>(ty: &'a Ty, v: &Val, stack: &mut Vec<&'a std::sync::Arc<crate::t
         }
         // BigDecimal equality is numeric ("1.0" == "1.00"); the wire carries its Display rendering
         (BigDecimal, Val::Str(s)) => match s.parse::<bigdecimal::BigDecimal>() {
-            Ok(b) => Val::Str(b.normalized().to_string()),
+            // (normalized() computes scale - trailing zeros in plain i64: keep away from it at the far ends)
+            Ok(b) if b.as_bigint_and_exponent().1.unsigned_abs() < (1 << 40) => Val::Str(b.normalized().to_string()),
+            Ok(b) => Val::Str(b.to_string()),
             Err(_) => v.clone(),
         },
         (Box(t) | Rc(t) | Arc(t) | Ref(t), x) => canon_in(t, x, stack),
